@@ -1,7 +1,7 @@
 (** Coinswap proofs, part 6: histories (C01 over any sequence of operations),
     add-then-remove, swap round trips, who can be debited (C07),
     boundaries of the user-set limits (C08), onboarding auto-swaps (C09). *)
-From Coq Require Import ZArith List Bool Lia Psatz.
+From Coq Require Import ZArith List Bool Lia.
 From Canto Require Import Lib.SdkInt Lib.SdkDec Lib.SdkDecProofs Model.Coinswap
      Proofs.CoinswapBase Proofs.CoinswapEffects Proofs.CoinswapValue Proofs.CoinswapWF Proofs.CoinswapLaws.
 Import ListNotations.
